@@ -24,13 +24,13 @@ import subprocess
 import time
 
 import extract
-from scratch import VERIF
+from scratch import VERIF, VSPEC_DIR
 
 UNIT_RE = re.compile(r"//\s*@unit\s+(.*)")
 
 
 def scan_units(vdir=None):
-    vdir = vdir or os.path.join(VERIF, "vspec")
+    vdir = vdir or VSPEC_DIR
     units = []
     if not os.path.isdir(vdir):
         return units
